@@ -29,5 +29,6 @@ def clamp(o, dts, nsteps):
     else:
         o["dt_init"] = 0.4 * dts
         o["dt_max"] = max(o.get("dt_max", 0.1), o["dt_init"])
-        o["solve_time"] = nsteps * o["dt_init"]
+        o["solve_time"] = nsteps * o["dt_init"] - 0.5 * o["dt_init"]  # (no tie between the accumulated time and the end time)
+    o.pop("auto_dt", None)  # the step is fixed HERE, once, for every run of a differential pair
     return o
